@@ -18,6 +18,7 @@ func init() {
 		c04FullReads(c)
 		c04Limits(c)
 		c04TunnelWrite(c)
+		peekLifetimeRule(c, "C04/PEEK-LIFETIME", []string{"pkg/base", "pkg/conn", "internal/base64streamreader", ""}, 8)
 		noPanicFor(c, "C04")
 	}
 }
